@@ -12,7 +12,9 @@
    buf:    scan number k (k-th script) reads buffer number k mod #buffers
    script: word over c/a/e ("-" = empty): answer to the k-th message, CONTINUE afterwards; prefix "b:" / "B:": the scan goes
            through yr_scanner_scan_mem_blocks with a one-block iterator without / with a file_size function (without:
-           `filesize` is undefined); "p": a process scan of a helper process at this point of the history (output "PROC" only)
+           `filesize` is undefined); "p": a process scan of a helper process at this point of the history (output "PROC" only);
+           "F<f>_<x>": yr_scanner_set_flags(report flags f, other flags x) at this point of the history (output "SETF")
+   I<k>:   atom usable only as a whole condition: an INTEGER-valued condition (table at `intAtom`)
    x:      other scan flags the harness passes along (FAST_MODE, NO_TRYCATCH); no effect on the protocol
    f:      bit0 = REPORT_RULES_MATCHING, bit1 = REPORT_RULES_NOT_MATCHING (api=d: set_flags never called)
    output: <id> <msg> … rc=<code> [| <msg> … rc=<code>]      msg: TM:<ns>.<rule>.$s<k> IMP:<m> MOD:<m> M:<ns>.<rule> N:<ns>.<rule> FIN -/
@@ -38,16 +40,28 @@ structure Prog where
   imports : List String    -- reversed while parsing
   strs : List Str          -- reversed while parsing
 
+/-- value of the integer-valued conditions the harness can write (none = undefined):
+    I0 `-1` | I1 `3 - filesize` | I2 `~uint8(1)` | I3 `int8(0)` | I4 `filesize - 5` | I5 `0 - filesize` -/
+def intAtom (fs : Option Nat) (buf : List UInt8) : Nat → Option Int
+  | 0 => some (-1)
+  | 1 => fs.map fun s => 3 - (s : Int)
+  | 2 => buf[1]?.map fun x => -((x.toNat : Int) + 1)
+  | 3 => buf[0]?.map fun x => if x.toNat ≥ 128 then (x.toNat : Int) - 256 else (x.toNat : Int)
+  | 4 => fs.map fun s => (s : Int) - 5
+  | 5 => fs.map fun s => -(s : Int)
+  | _ => none
+
 /-- atoms that define a string get the next string index (`YR_STRING.idx`: definition order) -/
-def parseAtom (fs : Option Nat) (ridx : Nat) (strs : List Str) (a : String) : Option (SCond × List Str) :=
+def parseAtom (ev : Option Nat × List UInt8) (ridx : Nat) (strs : List Str) (a : String) : Option (SCond × List Str) :=
   let nloc := (strs.filter (·.rule == ridx)).length
   let idx := strs.length
   match a.toList with
   | ['T'] => some (.lit true, strs)
   | ['F'] => some (.lit false, strs)
   | ['U'] => some (.lit false, strs)     -- `uint8(100000) == 1`: undefined ⇒ does not hold (and/or treat it as false)
-  | 'z' :: n => (String.ofList n).toNat?.map fun k => (.lit (fileSizeAtom fs true k), strs)
-  | 'y' :: n => (String.ofList n).toNat?.map fun k => (.lit (fileSizeAtom fs false k), strs)
+  | 'z' :: n => (String.ofList n).toNat?.map fun k => (.lit (fileSizeAtom ev.1 true k), strs)
+  | 'I' :: n => (String.ofList n).toNat?.map fun k => (.lit (intCondHolds (intAtom ev.1 ev.2 k)), strs)
+  | 'y' :: n => (String.ofList n).toNat?.map fun k => (.lit (fileSizeAtom ev.1 false k), strs)
   | 's' :: h | 'S' :: h => (Driver.unhex (String.ofList h)).map fun p => (.str idx, ⟨p, ridx, nloc⟩ :: strs)
   | 'n' :: h | 'N' :: h => (Driver.unhex (String.ofList h)).map fun p => (.not (.str idx), ⟨p, ridx, nloc⟩ :: strs)
   | 'c' :: t | 'C' :: t =>
@@ -70,14 +84,14 @@ def splitCond (s : String) : List String × List Char :=
       else go t (c :: cur) atoms ops
   go s.toList [] [] []
 
-def parseCond (fs : Option Nat) (ridx : Nat) (strs : List Str) (s : String) : Option (SCond × List Str) :=
+def parseCond (ev : Option Nat × List UInt8) (ridx : Nat) (strs : List Str) (s : String) : Option (SCond × List Str) :=
   match splitCond s with
   | (a :: as, ops) => do
-      let (c0, st0) ← parseAtom fs ridx strs a
+      let (c0, st0) ← parseAtom ev ridx strs a
       let rec go (acc : SCond) (st : List Str) : List String → List Char → Option (SCond × List Str)
         | [], [] => some (acc, st)
         | b :: bs, o :: os => do
-            let (c, st') ← parseAtom fs ridx st b
+            let (c, st') ← parseAtom ev ridx st b
             go (if o = '&' then .and acc c else .or acc c) st' bs os
         | _, _ => none
       go c0 st0 as ops
@@ -87,16 +101,16 @@ def parseKind : String → Option (Bool × Bool)
   | "n" => some (false, false) | "g" => some (true, false)
   | "p" => some (false, true) | "gp" => some (true, true) | _ => none
 
-def parseItems (fs : Option Nat) : List String → Prog → Option Prog
+def parseItems (ev : Option Nat × List UInt8) : List String → Prog → Option Prog
   | [], p => some ⟨p.rules.reverse, p.imports.reverse, p.strs.reverse⟩
   | it :: its, p =>
     match Driver.parts it with
-    | ["i", _, m] => parseItems fs its { p with imports := m :: p.imports }
+    | ["i", _, m] => parseItems ev its { p with imports := m :: p.imports }
     | ["r", ns, k, c] => do
         let n ← ns.toNat?
         let (g, pr) ← parseKind k
-        let (cd, st) ← parseCond fs p.rules.length p.strs c
-        parseItems fs its { p with rules := ⟨n, g, pr, cd⟩ :: p.rules, strs := st }
+        let (cd, st) ← parseCond ev p.rules.length p.strs c
+        parseItems ev its { p with rules := ⟨n, g, pr, cd⟩ :: p.rules, strs := st }
     | _ => none
 
 /-- occurrences in scan order: the automaton reports an occurrence when it has consumed its last byte
@@ -111,6 +125,7 @@ def events (buf : List UInt8) (strs : List Str) : List Nat :=
     "b:<script>" / "B:<script>" = caller's block iterator without / with a file_size function, else `yr_scanner_scan_mem` -/
 def splitKind (s : String) : Char × String :=
   if s == "p" then ('p', "-")
+  else if s.startsWith "F" then ('F', (s.drop 1).toString)
   else if s.startsWith "b:" then ('b', (s.drop 2).toString)
   else if s.startsWith "B:" then ('B', (s.drop 2).toString)
   else ('m', s)
@@ -152,14 +167,24 @@ def handle (line : String) : String :=
       -- scan number k reads buffer number k mod #buffers; atoms are decided per buffer
       let limit := ((kv rest "L").bind (·.toNat?)).getD 1000000      -- YR_MAX_STRING_MATCHES of the build
       let kinds := ((← kv rest "scripts").splitOn "/").map splitKind
-      let scripts ← kinds.mapM fun ks => parseScript ks.2
+      let scripts ← kinds.mapM fun ks => if ks.1 == 'F' then some [] else parseScript ks.2
       let fl := if api == "d" then defaultFlags else setFlags (f % 2 == 1) (f / 2 % 2 == 1)
-      let outs ← (kinds.zip scripts).zipIdx.mapM fun ((ks, s), k) => do
-        let b ← bufs[k % bufs.length]?
-        if ks.1 == 'p' then pure "PROC" else
-        -- atoms are decided per scan: by the buffer and by whether the scan has a file size
-        let p ← parseItems (scanFileSize (ks.1 != 'b') b.length) its ⟨[], [], []⟩
-        pure (showScan p.rules p.strs (fullScan limit (events b p.strs) p.rules p.imports fl s))
+      -- the history: scans, process-scan steps and yr_scanner_set_flags calls; the flags in force are those of the LAST call
+      let rec go (fl : Flags) (k : Nat) : List ((Char × String) × List Ret) → Option (List String)
+        | [] => some []
+        | ((kd, raw), s) :: rest => do
+          let b ← bufs[k % bufs.length]?
+          if kd == 'p' then (← go fl (k + 1) rest) |> fun t => pure ("PROC" :: t)
+          else if kd == 'F' then
+            let f' := ((raw.splitOn "_").head?.bind (·.toNat?)).getD 0
+            let fl' := setFlags (f' % 2 == 1) (f' / 2 % 2 == 1)
+            (← go fl' (k + 1) rest) |> fun t => pure ("SETF" :: t)
+          else
+            -- atoms are decided per scan: by the buffer and by whether the scan has a file size
+            let p ← parseItems (scanFileSize (kd != 'b') b.length, b) its ⟨[], [], []⟩
+            let t ← go fl (k + 1) rest
+            pure (showScan p.rules p.strs (fullScan limit (events b p.strs) p.rules p.imports fl s) :: t)
+      let outs ← go fl 0 (kinds.zip scripts)
       pure (" | ".intercalate outs)
     id ++ " " ++ res.getD "BADCASE"
 
